@@ -31,10 +31,14 @@
 
   Go map iterations (besides MVP-6.0's, see Model/Mvp60.lean):
   * `for previousRunner := range u.pushedRunnersInPreviousCycle` in `shouldUseForwarding` returns the FIRST runner (in
-    map order) that writes a register the candidate reads.  The model keeps the runners in push order and RAISES A
-    PANIC ("map order") when two different previous runners match — so the tie itself checks that the order never
-    matters on a generated case.  (It cannot matter: forwarding is only tried with exactly one hazard, and every
-    register written by a runner pushed one cycle ago is still pending, so a second match would be a second hazard.)
+    map order) that writes a register the candidate reads.  The model keeps the runners in push order and, when two runners
+    with different identities match (`FwdChoice.ambiguous`), records the candidate and the two producers in the ghost field
+    `State.mapOrder` and ends the run right after the control unit with the distinguished panic `mapOrderMsg` — so the
+    tie itself checks that the order never matters on a generated case of MVP-6.1 / 6.2 (it cannot: forwarding is only
+    tried with exactly one hazard, and every register written by a runner pushed one cycle ago is still pending, so a
+    second match would be a second hazard), and gives no verdict where it does matter on MVP-6.3 (renaming admits two
+    writers of one register in one cycle).  `Proofs/Mvp63MapOrder.lean`: `ambiguous` iff two such producers; otherwise
+    the answer is the same for every order of the runners; only the control unit ever sets the marker.
   * `hazardTypes` (a map) is only indexed and measured (`len`).
 
   Granularity: ONE CALL OF `cycle` = ONE `ctx.VerifTick()`.  `Mode`: `normal`, `retA`, `retB` as in MVP-6.0;
@@ -122,6 +126,9 @@ structure State where
   rename tables instead of the transaction map, `shouldUseRenaming` in the control unit, the write units' filter in the
   cycle of a flush), see `Model/Mvp63.lean` -/
   v63 : Bool := false
+  /-- ghost: `some (candidate, p, q)` once `shouldUseForwarding` had to choose between two different runners `p`, `q`
+  pushed in the previous cycle (possible with renaming only: MVP-6.3); the run ends in that tick -/
+  mapOrder : Option (Runner × Runner × Runner) := none
   deriving Inhabited
 
 /-! ## the forward slots and the channels -/
@@ -209,18 +216,33 @@ def fwdMatch (p r : Runner) : Option Reg :=
 run as `maporder`, the check gives no verdict on it) -/
 def mapOrderMsg : String := "map order: two runners pushed in the previous cycle match"
 
-/-- `shouldUseForwarding(runner, hazards, hazardTypes)`: `none` = no; the Go loop ranges over a map — the model
-takes the runners in push order and fails when the choice would depend on the order -/
-def shouldUseForwarding (prev : List Runner) (r : Runner) (hz : List (HazardType × Reg)) : M (Option (Runner × Reg)) :=
+/-- what `shouldUseForwarding` answers -/
+inductive FwdChoice where
+  /-- `false, nil, Zero` -/
+  | no
+  /-- `true, previousRunner, register`, the same for every iteration order of the map -/
+  | one (p : Runner) (reg : Reg)
+  /-- two DIFFERENT runners pushed in the previous cycle match: Go returns whichever its map iteration yields first -/
+  | ambiguous (p q : Runner)
+  deriving Inhabited
+
+/-- the runners pushed in the previous cycle that write a register the candidate reads, with that register -/
+def fwdCandidates (prev : List Runner) (r : Runner) : List (Runner × Reg) :=
+  prev.filterMap fun p => (fwdMatch p r).map fun reg => (p, reg)
+
+/-- `shouldUseForwarding(runner, hazards, hazardTypes)`.  The Go loop ranges over the MAP
+`pushedRunnersInPreviousCycle` and returns the first match; the model keeps the runners in push order and does not choose
+when two different runners (ghost identity `uid`) match -/
+def shouldUseForwarding (prev : List Runner) (r : Runner) (hz : List (HazardType × Reg)) : FwdChoice :=
   match hz with
   | [(.raw, _)] =>
-    let ms := prev.filterMap fun p => (fwdMatch p r).map fun reg => (p, reg)
-    match ms with
-    | [] => pure none
-    | [m] => pure (some m)
-    | m :: _ => if ms.all (fun x => x.1.uid == m.1.uid) then pure (some m)
-                else throw (.panic mapOrderMsg)
-  | _ => pure none
+    match fwdCandidates prev r with
+    | [] => .no
+    | m :: rest =>
+      match rest.find? (fun x => x.1.uid != m.1.uid) with
+      | none => .one m.1 m.2
+      | some x => .ambiguous m.1 x.1
+  | _ => .no
 
 /-- `previousRunner.Forwarder = ch` on the runner object the execute bus points to -/
 def setForwarder (b : BufferedBus Runner) (uid ch : Nat) : BufferedBus Runner :=
@@ -243,6 +265,8 @@ structure CuSt where
   forwarded : Nat
   v62 : Bool := false
   v63 : Bool := false
+  /-- set when `shouldUseForwarding` was ambiguous: the candidate and the two producers -/
+  mapOrder : Option (Runner × Runner × Runner) := none
 
 /-- `pushRunner(ctx, cycle, runner)` followed by `pushedRunnersInCurrentCycle[runner] = true` -/
 def pushRunner (st : CuSt) (cycle : Int) (r : Runner) : Option CuSt :=
@@ -266,16 +290,17 @@ def handleRunner (st : CuSt) (cycle : Int) (r : Runner) : M ((Bool × Bool) × R
       match pushRunner st cycle r with
       | none => pure ((false, true), r, st)
       | some st' => pure ((true, t == Gen.InstructionType.Ret), r, st')
-    else do
-      match ← shouldUseForwarding st.prev r hz with
-      | some (p, reg) =>
+    else
+      match shouldUseForwarding st.prev r hz with
+      | .ambiguous p q => pure ((false, true), r, { st with mapOrder := some (r, p, q) })
+      | .one p reg =>
         let ch := st.nextChan
         let st := { st with nextChan := st.nextChan + 1, outBus := setForwarder st.outBus p.uid ch }
         let r := { r with receiver := some ch, fwdReg := reg }
         match pushRunner st cycle r with
         | none => pure ((false, true), r, st)
         | some st' => pure ((true, true), r, { st' with forwarded := st'.forwarded + 1 })
-      | none =>
+      | .no =>
         -- MVP-6.3: `if u.shouldUseRenaming(hazards, hazardTypes) { … return true, false }` — at most one hazard, and
         -- it is not read-after-write: the runner is pushed although an older writer / reader of its register is in flight
         if st.v63 && decide (hz.length ≤ 1) && !hz.any (fun h => h.1 == HazardType.raw) then
@@ -322,6 +347,9 @@ def controlCycle (s : State) : M State :=
                        forwarded := s.forwarded, v62 := s.v62, v63 := s.v63 }
     let (st, stopped) ← cuPendingLoop s.cycles s.cuPendings.iterator st
     let st ← if stopped then pure st else cuBusLoop s.cycles (st.inBus.pendingRead.toNat + 1) st
+    -- the forwarding choice was ambiguous: the run ends here (see `cycleM`); the state is kept, with the witness
+    if st.mapOrder.isSome then pure { s with mapOrder := st.mapOrder }
+    else
     pure { s with ctx := st.ctx, controlBus := st.inBus, executeBus := st.outBus, cuPendings := st.pendings,
                   cuPrev := st.cur, cuPendCond := st.pendCond, nextChan := st.nextChan, nextUid := st.nextUid,
                   forwarded := st.forwarded }
@@ -659,6 +687,9 @@ def cycleM (app : App) (s : State) : M (State × Event) :=
     let s ← fetchCycle app s
     let s ← decodeCycle app s
     let s ← controlCycle s
+    -- the Go result depends on map iteration order from here on: the run ends with the distinguished panic
+    if s.mapOrder.isSome then pure (s, .done (.panic mapOrderMsg))
+    else do
     let (s, acc) ← eusCycle app s.eus.length 0 s {}
     if acc.err then pure (s, .done .err)
     else do
